@@ -352,6 +352,8 @@ func allHandlers(p *load.Program) (fns []*ssa.Function, byAccept map[*ssa.Functi
 }
 
 func checkC14(p *load.Program, r *kit.Report) {
+	r.Rule("HEADER-REFUSALS", "readHeader refuses a header only with the error of a read from the connection or with ErrWrongNetwork: command, length and checksum are data for the dispatcher", 5)
+	checkHeaderRefusals(p, r, "HEADER-REFUSALS")
 	r.NotDecided = "the pong itself (needs the send path to run), multi-MB payload timing; for count-prefixed item loops exactness relies on the protocol's own invariant that varint + count×item equals the declared length (conformant traffic, which is what the property grants)."
 	r.Rule("CONSUME", "every handler return that may be nil is reached only after the message was consumed to exactly header.Length: readMessage, DiscardInput(r, header.Length), a deferred DiscardInputWithCounter/discardBlock whose counter tees every later read, or the exit of a count-bounded item loop; typed exemptions: closing connection (!IsReady in handlers installed with ready), dead-by-installation (txManager == nil), zero-payload commands, shutdown (interrupt arm)", 25)
 	r.Rule("FRAME-HELPERS", "readHeader reads 4+12+4+4 bytes and rejects a foreign magic before reading on; readMessage consumes exactly header.Length on success; DiscardInput reads n = (n/1024)·1024 + n%1024 bytes with full reads; handleMessage discards header.Length when no handler exists; handleExtended rewrites header.Length from the 12+8 byte extended header before installing the counted discard; readIncoming stops on every handler error", 7)
